@@ -5,10 +5,34 @@
 From Coq Require Import List ZArith Lia Bool Arith String.
 From RG.Base Require Import Outcome GoInt GoSlice.
 From RG.Regex Require Import Utf8 Regex Capture.
-From RG.Engine Require Import TruncateSpec RenderSpec CommentSpec.
-From RGW Require Import Gen_C03 Inst_Render Gen_C12 Inst_Comment.
+From RG.Engine Require Import TruncateSpec RenderSpec RenderLoop CommentSpec CommentLoop.
+From RGW Require Import Gen_C03 Inst_Render Gen_C12 Inst_Comment Gen_C12Loop Def_CommentLoop Inst_CommentLoop.
 Import ListNotations.
 Local Open Scope Z_scope.
+
+(* runCommentRules AS TRANSLATED FROM THE SOURCE on this run (go2coq c12loop: both range loops with their break / continue,
+   the declaration of the match data wherever it stands, the index arithmetic result[i*2+0/1], the positions
+   file.Pos(idx + file.Offset(comment.Pos())) with token.File read as base + offset, both paths), instantiated on the model's
+   rules / nodes / match data / handler, IS the model run_comment_rules: for all rule lists, all answers of the regexp oracle,
+   all comments at all offsets of a file with ANY base in the FileSet, all worlds (reports delivered so far). Every theorem
+   below about run_comment_rules / try_rule is therefore a theorem about the translated function. *)
+Theorem C12_translated_loop_is_model :
+  forall re l src off text base rules w,
+  gen_run_comment_rules nodeTextInRange re l src off text base rules w =
+  bind (run_comment_rules nodeTextInRange re l src off text rules) (fun r => Ok (deliver w r)).
+Proof. exact (gen_run_is_run_comment_rules nodeTextInRange). Qed.
+Print Assumptions C12_translated_loop_is_model.
+
+(* at most one report per comment is delivered, and it is the model's *)
+Corollary C12_translated_loop_delivers_at_most_one :
+  forall re l src off text base rules log,
+  gen_run_comment_rules nodeTextInRange re l src off text base rules [] = Ok log ->
+  exists r, run_comment_rules nodeTextInRange re l src off text rules = Ok r /\ log = match r with Some rep => [rep] | None => [] end.
+Proof.
+  intros re l src off text base rules log. rewrite C12_translated_loop_is_model.
+  destruct (run_comment_rules nodeTextInRange re l src off text rules) as [r|p]; cbn [bind]; [|discriminate].
+  intros [= <-]. exists r. split; [reflexivity|]. destruct r; reflexivity.
+Qed.
 
 (* the rule loop AS THE SOURCE DECLARES ITS MATCH DATA (gen_c12_match_data_fresh) judges every rule on that rule's own
    submatches: whatever the loop variable holds on entry and whatever earlier rules matched (and rejected), the loop is
@@ -99,8 +123,8 @@ Theorem C12_has_capture_correct : forall re, walk_found re false = true <-> cont
 Proof. exact has_capture_correct. Qed.
 Print Assumptions C12_has_capture_correct.
 
-(* the statement facts of the comment-rule path, read off the source on this run *)
-Theorem C12_comment_path_facts : forallb snd gen_c12_facts = true /\ (22 <= List.length gen_c12_facts)%nat.
+(* the statement facts of the handlers, the comment walk of run(), the loader and regexpHasCaptureGroups, read off the source on this run *)
+Theorem C12_comment_path_facts : forallb snd gen_c12_facts = true /\ (8 <= List.length gen_c12_facts)%nat.
 Proof. exact (conj c12_facts_hold c12_facts_count). Qed.
 Print Assumptions C12_comment_path_facts.
 
